@@ -35,7 +35,7 @@ def main(argv):
         ck.broken.append("lean: OlVerif.Props.C08 does not build: " + b["log"][-1500:])
     else:
         ck.audit("OlVerif/Audit/C08.lean")
-    npool = 10 if ck.tier == "quick" else 300
+    npool = 10 if ck.tier == "quick" else 150
     known = inject.known_shapes()
     failing = []
     k_pairs = []
@@ -96,7 +96,17 @@ def main(argv):
     uncovered = []
     if b["driver_ok"]:
         hs = [h for h in hyp if lower_common.analysable(h[1])]
-        for (kind, prog, cfg, rej, dead), (bad, outcome) in zip(hs, lower_common.model_bad([(h[1], (h[2][1], h[2][2])) for h in hs])):
+        cap = 25000
+        if len(hs) > cap:
+            # every injection that the converter accepted, and a sample of the rest (the model is run in bounded batches)
+            keep = [h for h in hs if not h[3]]
+            hs = keep + ck.rng.sample([h for h in hs if h[3]], cap - min(cap, len(keep)))
+            ck.count("hypothesis_check_sampled", len(hs))
+
+        def model_bad_batched(items, size=1000):
+            for i in range(0, len(items), size):
+                yield from lower_common.model_bad(items[i:i + size])
+        for (kind, prog, cfg, rej, dead), (bad, outcome) in zip(hs, model_bad_batched([(h[1], (h[2][1], h[2][2])) for h in hs])):
             if bad is True:
                 ck.count("theorem_hypothesis_holds")
                 if outcome != "err":
